@@ -4,10 +4,11 @@
   (the model's content decoders and the cached contents `Ctx` of the create / power-levels / join-rules events).
 
   * `rulesAllow d e p sig : Option Bool` — `none` = outside the modelled domain (`inDomain`), otherwise the decision.
-  * `Departures` — the library's deliberate, documented departures D1–D15 of DESIGN.md §6.1 as individually
-    switchable flags, plus the candidate departures U1–U7 found while proving C07 (behaviour of the code that differs
-    from the rule text and is NOT in §6.1).  `Departures.library` = D1–D15 on, U off (the rules of §6.1);
-    `Departures.asImplemented` = everything on (what the code decides: theorem `V.C07.allowed_eq_rules`).
+  * `Departures` — the library's deliberate, documented departures D1–D17 of DESIGN.md §6.1 as individually
+    switchable flags; `Departures.library` = all on (the rules of §6.1: theorem `V.C07.allowed_eq_spec`).
+    (D16, D17 were found while proving C07; five further differences found then — public joins after a knock, the '@'
+    rule on m.room.third_party_invite events, v11 room_version check, stray third_party_invite blocks, mxid_mapping
+    outside pseudo-ID rooms — were repaired in /repo: commits 6fda2cc, 17893e1, 81e30aa, ba68227, c0fa8cc.)
 
   No copy of the specification exists in this sandbox: the clauses are written from the property statement, the
   rule list in the task, the citations in /repo/eventauth.go and memory of the room-version pages.  Clauses that could
@@ -58,46 +59,30 @@ structure Departures where
   d14_pseudoIDs : Bool
   /-- D15: before v10, levels given as strings (trimmed) or floats (truncated) are coerced to integers -/
   d15_pythonInt : Bool
-  -- candidates: behaviour of the code that differs from the rule text and is not listed in DESIGN.md §6.1
-  /-- U1: an invited or joined user may (re)join whatever the join rule is — also `private`, unknown or undecodable
-      join rules and `knock` before v7 (spec 5.3.7: otherwise reject).  Source comment: "An invited user is always
+  /-- D16: an invited (or already joined) user may join whatever the join rule is, including unknown values such as
+      `private` and `knock` before v7 (spec 5.3.7: otherwise reject).  Source comment: "An invited user is always
       allowed to join, regardless of the join rule". -/
-  u1_invitedJoinsAnyRule : Bool
-  /-- U2: a join under join rule `public` needs the previous membership invite, join or leave: a knocking user (or one
-      with an unrecognised previous membership) cannot join a public room (spec 5.3.6: public ⇒ allow). -/
-  u2_publicJoinFromLeaveOnly : Bool
-  /-- U3: m.room.third_party_invite events are additionally subject to rule 9 ('@' state keys) (spec rule 7: allow if
-      and only if the sender has the invite level). -/
-  u3_thirdPartyInviteRule9 : Bool
-  /-- U4: in a v1/v2 room a redaction whose `redacts` has no domain part is rejected even when the sender has the
-      redact level (spec 11.1 comes first). -/
-  u4_redactsNeedsDomain : Bool
-  /-- U5: v11 (checkCreateEventV2) does not check `content.room_version` (spec v11 rule 1.3 still does). -/
-  u5_v11NoRoomVersionCheck : Bool
-  /-- U6: ANY membership event whose content has a `third_party_invite` key needs a decodable
-      m.room.third_party_invite event for `signed.token` (spec: only invites look at it). -/
-  u6_strayThirdPartyKey : Bool
-  /-- U7: `mxid_mapping.user_id` replaces the sender in the m.federate check in EVERY room version (§6.1 D14 documents
-      it for pseudo-ID rooms only). -/
-  u7_mxidMappingAllVersions : Bool
+  d16_invitedJoinsAnyRule : Bool
+  /-- D17: in a v1/v2 room a redaction whose `redacts` has no ':' is refused before the power-level test (spec 11.1
+      comes first).  Pinned by the repository's TestRedactAllowed, case "Invalid redacts event ID". -/
+  d17_redactsNeedsDomain : Bool
   deriving Repr, DecidableEq
 
-/-- the rules as DESIGN.md §6.1 defines them: D1–D15 on, nothing else -/
+/-- the rules as DESIGN.md §6.1 defines them: every documented departure on -/
 def Departures.library : Departures :=
   { d1_selfLeaveLeave := true, d2_creatorMaxLevel := true, d3_effectiveValues := true, d4_eventEntryDefault := true,
     d5_redactionByCreateContent := true, d6_aliasesAllVersions := true, d7_thirdPartySynapse := true, d8_looseUserKeys := true,
     d9_knockRestrictedEarly := true, d10_unbanBanLevelOnly := true, d11_notificationsGE := true, d12_firstJoinBySelf := true,
-    d13_creatorString := true, d14_pseudoIDs := true, d15_pythonInt := true,
-    u1_invitedJoinsAnyRule := false, u2_publicJoinFromLeaveOnly := false, u3_thirdPartyInviteRule9 := false,
-    u4_redactsNeedsDomain := false, u5_v11NoRoomVersionCheck := false, u6_strayThirdPartyKey := false,
-    u7_mxidMappingAllVersions := false }
+    d13_creatorString := true, d14_pseudoIDs := true, d15_pythonInt := true, d16_invitedJoinsAnyRule := true,
+    d17_redactsNeedsDomain := true }
 
-/-- what the code decides (D1–D15 and U1–U7) -/
-def Departures.asImplemented : Departures :=
-  { Departures.library with
-    u1_invitedJoinsAnyRule := true, u2_publicJoinFromLeaveOnly := true, u3_thirdPartyInviteRule9 := true,
-    u4_redactsNeedsDomain := true, u5_v11NoRoomVersionCheck := true, u6_strayThirdPartyKey := true,
-    u7_mxidMappingAllVersions := true }
+/-- the rule text with no departure at all -/
+def Departures.specText : Departures :=
+  { d1_selfLeaveLeave := false, d2_creatorMaxLevel := false, d3_effectiveValues := false, d4_eventEntryDefault := false,
+    d5_redactionByCreateContent := false, d6_aliasesAllVersions := false, d7_thirdPartySynapse := false, d8_looseUserKeys := false,
+    d9_knockRestrictedEarly := false, d10_unbanBanLevelOnly := false, d11_notificationsGE := false, d12_firstJoinBySelf := false,
+    d13_creatorString := false, d14_pseudoIDs := false, d15_pythonInt := false, d16_invitedJoinsAnyRule := false,
+    d17_redactsNeedsDomain := false }
 
 /-! ## What the room-version pages say about each version (independent of the library's table) -/
 
@@ -272,10 +257,9 @@ def ruleCreate (d : Departures) (sv : SpecVersion) (e : Event) : Bool :=
             | none => false)
       else if sv.createRules == 2 then
         roomDomainIsSenderDomain e                        -- 1.2
-        && (d.u5_v11NoRoomVersionCheck ||
-            (match contentFields e.content with
-             | some kvs => roomVersionRecognised kvs      -- 1.3 (v11 keeps it)   -- unverified transcription
-             | none => false))
+        && (match contentFields e.content with
+            | some kvs => roomVersionRecognised kvs       -- 1.3 (v11 drops only the creator rule)
+            | none => false)
       else
         noRoomIDField e                                   -- [v12] 1.2 no room_id
         && (match contentFields e.content with
@@ -323,8 +307,8 @@ def ruleCommon (d : Departures) (c : Ctx) (p : Provider) (e : Event) : Bool :=
     ruleCreatePresent c e && ruleFederate c u.domain
     && sm.membership == b!"join"                                   -- 6
     && decide (powerOf d c e.sender ≥ requiredLevel c e)           -- 7, 8
-    && (ruleAtStateKey e                                           -- 9
-        || (!d.u3_thirdPartyInviteRule9 && e.type == b!"m.room.third_party_invite"))   -- 7 "if and only if"   -- unverified transcription
+    && (e.type == b!"m.room.third_party_invite"                   -- 7 "allow if and only if" the invite level is met
+        || ruleAtStateKey e)                                       -- 9
   | _, _ => false
 
 /-! ## Rule 5: m.room.member -/
@@ -379,9 +363,8 @@ def ruleJoin (d : Departures) (i : MemberInputs) : Bool :=
         restrictedApplies d i && (invitedOrJoined || authorisedJoin d i)
       else
         (inviteLikeRule i && invitedOrJoined)                       -- 5.3.4
-        || (i.joinRule == b!"public"                                -- 5.3.6
-            && (!d.u2_publicJoinFromLeaveOnly || invitedOrJoined || i.old.membership == b!"leave"))
-        || (d.u1_invitedJoinsAnyRule && invitedOrJoined))           -- (U1)
+        || i.joinRule == b!"public"                                 -- 5.3.6
+        || (d.d16_invitedJoinsAnyRule && invitedOrJoined))          -- D16
 
 /-- 5.4.1 (D7: Synapse 0.18.5) -/
 def ruleThirdPartyInvite (d : Departures) (i : MemberInputs) (s : ThirdPartySigned) : Bool :=
@@ -427,11 +410,11 @@ def ruleKnock (d : Departures) (i : MemberInputs) : Bool :=
   && i.selfSent                                                     -- 5.7.2
   && !(i.old.membership == b!"ban" || i.old.membership == b!"invite" || i.old.membership == b!"join")   -- 5.7.3
 
-/-- the user whose domain the m.federate rule looks at (D14 / U7: `mxid_mapping.user_id` when present) -/
+/-- the user whose domain the m.federate rule looks at (D14: `mxid_mapping.user_id` in pseudo-ID rooms) -/
 def federateSubject (d : Departures) (i : MemberInputs) : Option UserID :=
   match i.new.mxidMappingUserID with
   | some uid =>
-    if d.d14_pseudoIDs && (d.u7_mxidMappingAllVersions || i.e.ver == b!"org.matrix.msc4014") then userOf uid
+    if d.d14_pseudoIDs && i.e.ver == b!"org.matrix.msc4014" then userOf uid
     else userOf i.e.sender
   | none => userOf i.e.sender
 
@@ -457,8 +440,7 @@ def ruleMember (d : Departures) (c : Ctx) (p : Provider) (sv : SpecVersion) (e :
     match membershipOf p target, membershipOf p e.sender with       -- (the current memberships are decodable)
     | some om, some sm =>
       let i : MemberInputs := { c, p, e, sv, target, new := nm, old := om, snd := sm, sig3pid }
-      (!d.u6_strayThirdPartyKey || (thirdPartyKeys p nm).isSome)    -- (U6)
-      && ruleCreatePresent c e                                      -- 3
+      ruleCreatePresent c e                                         -- 3
       && (match federateSubject d i with                            -- m.federate
           | some u => ruleFederate c u.domain
           | none => false)
@@ -568,7 +550,7 @@ def ruleRedaction (d : Departures) (c : Ctx) (p : Provider) (e : Event) : Bool :
             | some u, some dom =>
               u.domain == dom                                        -- 11.2 (D5: the sender's domain)
               || decide (powerOf d c e.sender ≥ c.pl.redact)         -- 11.1
-            | _, _ => !d.u4_redactsNeedsDomain && decide (powerOf d c e.sender ≥ c.pl.redact))
+            | _, _ => !d.d17_redactsNeedsDomain && decide (powerOf d c e.sender ≥ c.pl.redact))   -- D17
       else
         !(e.ver == b!"1" || e.ver == b!"2")                          -- [v3+]
         || decide (powerOf d c e.sender ≥ c.pl.redact)               -- 11.1
